@@ -178,6 +178,13 @@ class DiffXReader(object):
                         % section_id,
                         linenum=linenum)
 
+                if not isinstance(length, int) or length < 0:
+                    raise DiffXParseError(
+                        'Expected the length option for section "%s" to be '
+                        'a non-negative integer, not "%s"'
+                        % (section_id, length),
+                        linenum=linenum)
+
                 if section_id in PREAMBLE_SECTIONS:
                     # This is a preamble section.
                     #
